@@ -11,6 +11,10 @@
       -> ids=<returned GPU id classes in order>                           (pickBestPartialFitByLibrary)
     c16free <ngpus> {key idk total free}* <nrunners> {nil | <n> {idk est}*}*
       -> f1,f2,...   (FreeMemory of every GPU after Scheduler.updateFreeSpace)
+    c16load <spread 0|1> <OLLAMA_NUM_PARALLEL> <mllama 0|1> <embed 0|1> <defaultParallel> <n> {p <common>}*
+            <ngpus> {keyclass idclass lib free min lkey total}* <nrunners> {<loading 0|1> <n> {id}* <m> {size}*}*
+      -> load ids=<ids> free=<adjusted frees> p=<numParallel> | evict | delay
+         (the GPU branch of Scheduler.processPending for a model that is not loaded)
 -/
 import OllamaVerif.Model.Memory
 import Oracle.Util
@@ -68,6 +72,18 @@ def pRunner : TP Runner := do
       let l ← rep n pPair
       pure (some l)
     | none => failure
+
+def pIGpu : TP IGpu := do
+  let f ← pFGpu
+  let lk ← nat
+  let t ← nat
+  pure ⟨f, lk, t⟩
+
+def pLRunner : TP LRunner := do
+  let ld ← nat
+  let ids ← listOf nat
+  let sizes ← listOf nat
+  pure ⟨ld != 0, ids, sizes⟩
 
 def commaOrDash (l : List Nat) : String :=
   if l.isEmpty then "-" else joinWith "," (l.map toString)
@@ -143,6 +159,31 @@ def handle (toks : List String) : Option String :=
       pure (match pickFull commonOf np dp (spread != 0) all with
         | none => "nil"
         | some (l, p) => s!"ids={showIds l} p={p}")) rest
+  | "c16load" :: rest =>
+    runTP (do
+      let spread ← nat
+      let np0 ← int
+      let mllama ← nat
+      let embed ← nat
+      let dp ← nat
+      let commons ← listOf pTry
+      let inv ← listOf pIGpu
+      let runners ← listOf pLRunner
+      let dflt : Inp := match commons with
+        | (_, c) :: _ => c
+        | [] => { lib := .other, gpus := [], overhead := 0, projs := [], vision := (0, 0), blk0 := none,
+                  blocks := [], graphPartial := 0, graphFull := 0, gqa := 0, outNorm := none,
+                  output := none, tokenEmbd := none, numGPU := 0 }
+      let commonOf : Nat → Inp := fun p => match commons.lookup p with
+        | some c => c
+        | none => dflt
+      let np := effParallel np0 (mllama != 0) (embed != 0)
+      let d := match loadDecision commonOf np dp (spread != 0) inv runners with
+        | .load _ l p =>
+          s!"load ids={showIds l} free={commaOrDash (l.map fun (x : FGpu) => x.gpu.free)} p={p}"
+        | .evict => "evict"
+        | .delay => "delay"
+      pure d) rest
   | "c16part" :: rest =>
     runTP (do
       let common ← pCommon
